@@ -52,5 +52,5 @@ pub open spec fn dosc_pow_total<C: ContentAddrStore>(s: UnsealedState<C>, rel: M
 }
 /// envelope: the inflated reward fits in u128 (needs a proof of difficulty ~64+, i.e. 2^64 sequential hashes)
 pub open spec fn dosc_reward_fits<C: ContentAddrStore>(s: UnsealedState<C>) -> bool {
-    forall|sp: int, ds: int, d: nat, t: bool| #[trigger] spec_dosc_to_erg(s.height.0 as nat, spec_reward(sp, ds, d, t)) <= u128::MAX
+    microergs_fit(s.height.0 as nat) && forall|sp: int, ds: int, d: nat, t: bool| #[trigger] spec_dosc_to_erg(s.height.0 as nat, spec_reward(sp, ds, d, t)) <= u128::MAX
 }
